@@ -27,22 +27,27 @@ LEAN_TARGETS = ["Asynkit.Props.C04", "Asynkit.Lemmas.GenEqC04"]
 PROPS_FILES = ["Asynkit/Props/C04.lean", "Asynkit/Lemmas/GenEqC04.lean"]
 DRIVERS = ["Ctx"]
 TRUSTED = [
-    "Lean 4.33 kernel; axioms ⊆ {propext, Classical.choice, Quot.sound} (audited per theorem each run)",
-    "hand-written model Asynkit/Model/Ctx.lean of CoroStart/coro_await/coro_eager (src/asynkit/coroutine.py), "
-    "tied to the code by the differential correspondence of this run (lean/Drivers/Ctx.lean)",
-    "translator/ctxresume2lean.py: CoroStart._resume (the test on self.context, context.run(method,*args) vs "
-    "method(*args)) is re-translated on every run, and for every entry point of CoroStart it is recorded whether each "
-    "self.coro.send/throw/close goes through self._resume; coro_eager's context=copy_context(), coro_await's "
-    "context=context.  Lemmas/GenEqC04.lean proves resume = inCtx true, wraps = repaired (the model the theorems are about)",
+    'Lean 4.33 kernel; axioms ⊆ {propext, Classical.choice, Quot.sound} (audited per theorem each run)',
+    'hand-written and tied only by the differential correspondence of this run (lean/Drivers/Ctx.lean): the '
+    'control flow of Asynkit/Model/Ctx.lean (start_result handling, the __await__ relay loop, '
+    "athrow/aclose/throw(tries)/close, _Continuation's first-step rule) and the script bodies",
+    'translated, not trusted: which context a segment runs in - CoroStart._resume (test on self.context, '
+    'context.run vs plain call) and, per entry point, whether every self.coro.send/throw/close goes through it; '
+    "coro_eager's copy_context(), coro_await's context= - is read off the source on every run "
+    "(translator/ctxresume2lean.py -> Gen/CtxResume.lean) and proved to be the model's inCtx / `repaired` "
+    'wrapping (Lemmas/GenEqC04.lean, 5 theorems)',
     "modelled, not verified: contextvars.Context.run (mapping swapped in, writes land in that Context, caller's "
-    "context restored), copy_context(), the coroutine-object envelope and generator semantics of __await__ "
-    "(PEP 479, GeneratorExit handling), PEP-380 delegation of the athrow()/aclose()/coro_await wrappers, "
-    "collections.abc.Coroutine.close() of the _Continuation object coro_eager hands to its Task",
+    'context restored), copy_context(), the coroutine-object envelope and generator semantics of __await__ (PEP '
+    '479, GeneratorExit handling), PEP-380 delegation of the athrow()/aclose()/coro_await wrappers, '
+    'collections.abc.Coroutine.close() of the _Continuation object coro_eager hands to its Task',
 ]
 ASSUMPTIONS = [
-    "the supplied Context is not the one the caller is currently running in (Context.run would raise RuntimeError)",
-    "drivers are sequential (no re-entrant resume of a running coroutine)",
-    "ContextVars are read with a default (an unset variable reads as its default, 0 in the model)",
+    'the supplied Context is not the one the caller is currently running in (Context.run would raise '
+    'RuntimeError)',
+    'drivers are sequential (no re-entrant resume of a running coroutine)',
+    'ContextVars are read with a default (an unset variable reads as its default, 0 in the model)',
+    'nested use (a coroutine in a context starting another one) and one Context used twice are outside the Lean '
+    'model (sequential drivers): those streams are checked by the oracle only',
 ]
 RULE = ("case = body script (1-4 suspension points; per point a send/except/finally entry of 0-3 set/get actions "
         "over 3 ContextVars and a terminal await|return|raise|re-raise) x mode {CoroStart(context=ctx), "
@@ -1027,7 +1032,141 @@ def nested_case(case):
     return bad
 
 
+def shared_case(case):
+    """One Context used twice: a first coroutine runs in `ctx` and, while it runs, a COPY of the
+    current context is taken (by hand with copy_context(), or by asyncio for a Task it creates);
+    later, code running in that copy drives a second CoroStart / coro_await that was given the
+    same `ctx`.  The second coroutine must run in `ctx` itself, not in the copy that drives it."""
+    a, b, c, d = case["vals"]
+    variant = case["variant"]            # corostart | cawait | close | task
+    obs = {}
+    keep = []
+    ctx = _mk_context(case["ctx0"], case.get("sentinel", True))
+    caller = _mk_context(case["cur0"])
+    copies = []
+
+    async def second():
+        obs["second_reads_first_write"] = VARS[0].get()          # a: it runs in ctx, where first() wrote
+        VARS[1].set(b)
+        try:
+            if variant == "task":
+                await asyncio.sleep(0)
+            else:
+                await tok(1)
+            obs["second_reads_own_write"] = VARS[1].get()        # b
+            VARS[2].set(c)
+        finally:
+            VARS[0].set(d)                                       # clean-up write (also on close())
+        return 1
+
+    def drive():
+        # runs inside the copy
+        sc = second()
+        keep.append(sc)
+        if variant == "cawait":
+            w = asynkit.coro_await(sc, context=ctx)
+            keep.append(w)
+            w.send(None)
+            try:
+                w.send(None)
+            except StopIteration:
+                pass
+        else:
+            cs2 = asynkit.CoroStart(sc, context=ctx)
+            keep.append(cs2)
+            if variant == "close":
+                cs2.close()
+            else:
+                g = cs2.__await__()
+                keep.append(g)
+                g.send(None)
+                try:
+                    g.send(None)
+                except StopIteration:
+                    pass
+        obs["driver_view"] = [v.get() for v in VARS]             # the copy: first()'s write only
+
+    async def first():
+        VARS[0].set(a)
+        if variant == "task":
+            async def child():
+                await asynkit.coro_await(second(), context=ctx)
+                obs["driver_view"] = [v.get() for v in VARS]
+            t = asyncio.ensure_future(child())                     # its context is a copy of ctx
+            while not t.done():
+                await asyncio.sleep(0)
+            t.result()
+        else:
+            copies.append(contextvars.copy_context())
+            await tok(9)
+        obs["first_after"] = [v.get() for v in VARS]              # shares ctx with second(): sees its writes
+        return 2
+
+    fc = first()
+    keep.append(fc)
+    if variant == "task":
+        async def top():
+            return await asynkit.coro_await(fc, context=ctx)
+        caller.run(lambda: _loop().run_until_complete(top()))
+    else:
+        cs1 = caller.run(lambda: asynkit.CoroStart(fc, context=ctx))
+        keep.append(cs1)
+        copies[0].run(drive)
+        obs["copy_after"] = _snap(copies[0])
+        g1 = caller.run(cs1.__await__)
+        keep.append(g1)
+        caller.run(lambda: g1.send(None))
+        try:
+            caller.run(lambda: g1.send(None))
+        except StopIteration:
+            pass
+    base = list(case["ctx0"])
+    copy_view = [a, base[1], base[2]]
+    final = [d, b, c] if variant != "close" else [d, b, base[2]]
+    checks = [("second_reads_first_write", a, "the second coroutine given the same Context does not see what the first wrote there"),
+              ("driver_view", copy_view, "writes of the second coroutine landed in the context of the code that drives it "
+                                         "(a copy of the Context), not in the Context it was given")]
+    if variant != "close":
+        checks.insert(1, ("second_reads_own_write", b, "the second coroutine does not read its own earlier write"))
+    if variant != "task":
+        checks.append(("copy_after", copy_view, "the copy that drove the second coroutine was written to"))
+    checks.append(("first_after", final, "the first coroutine, which shares the Context, does not see the second one's writes"))
+    bad = None
+    for k, want, what in checks:
+        if obs.get(k) != want:
+            bad = dict(fail=k, what=f"one Context used twice ({variant}, second use driven from a copy taken during the "
+                                    f"first): {what} ({k}: expected {want}, observed {obs.get(k)})",
+                       expected=want, observed=obs.get(k))
+            break
+    if bad is None and _snap(ctx) != final:
+        bad = dict(fail="supplied", what=f"one Context used twice ({variant}): the Context holds {_snap(ctx)}, the writes "
+                                         f"of its two coroutines give {final}", expected=final, observed=_snap(ctx))
+    if bad is None and _snap(caller) != list(case["cur0"]):
+        bad = dict(fail="caller", what="one Context used twice: the outermost caller's context changed",
+                   expected=case["cur0"], observed=_snap(caller))
+    with warnings.catch_warnings():
+        warnings.simplefilter("ignore")
+        for o in reversed(keep):
+            try:
+                if hasattr(o, "close") and not isinstance(o, asynkit.CoroStart):
+                    contextvars.Context().run(o.close)
+            except BaseException:  # noqa: BLE001
+                pass
+    return bad
+
+
 def nested_stream(ctx, rng, n):
+    for _ in range(max(1, n // 3)):
+        vals = rng.sample(range(1, 10), 4)
+        case = {"stream": "shared", "variant": rng.choice(["corostart", "cawait", "close", "task"]), "vals": vals,
+                "cur0": [0, rng.choice([0, 11]), 0], "ctx0": [0, rng.choice([0, 12]), rng.choice([0, 13])],
+                "sentinel": rng.random() < 0.7}
+        bad = shared_case(case)
+        ctx.case(case_text(case), ["context-shared-second-use-from-a-copy-" + case["variant"]])
+        if bad is not None:
+            ctx.violation(f"shared-{case['variant']}:{bad['fail']}", bad["what"], case,
+                          expected=bad["expected"], observed=bad["observed"],
+                          theorem="Asynkit.C04.ctx_every_segment (each CoroStart given the Context)")
     for _ in range(n):
         vals = rng.sample(range(1, 10), 4)
         cur0 = [0, rng.choice([0, 11]), 0]
@@ -1116,6 +1255,13 @@ def replay(ctx, data):
     case = {k: v for k, v in data["case"].items() if k not in ("failing_step", "driver_lines")}
     if "lit" in case:
         explore_literal(ctx, [case])
+        return
+    if case.get("stream") == "shared":
+        bad = shared_case(case)
+        ctx.case(case_text(case), ["replay"])
+        if bad is not None:
+            ctx.violation(data.get("key", "shared"), "replay: " + bad["what"], case, expected=bad["expected"],
+                          observed=bad["observed"], theorem="Asynkit.C04.ctx_every_segment")
         return
     if case.get("stream") == "nested":
         bad = nested_case(case)
